@@ -85,7 +85,7 @@ func init() {
 			"errors only Postgres would raise on a value the Go layer lets through (e.g. NUL bytes, numeric overflow in SQL) are not observable here",
 			"requests are served in-process (httptest): net/http's own request parsing (malformed request line, invalid percent-encoding, header syntax) is not exercised; the request context is cancelled when the handler returns, as net/http does - except for POST /logs/import, whose import goroutine can outlive the handler: memstore cannot serve a store call made after that cancellation (it panics holding its mutex), so that route keeps its context",
 			"the v2 ledger listing is served by memstore without the real paginator: cursor tampering on GET /v2/ only exercises cursor decoding",
-			"a 4xx of a NON-atomic bulk or of an import after some elements were committed is reported once per route under a dedicated `state-changed` signature (documented partial-commit semantics vs the literal statement)",
+			"a 4xx of a NON-atomic bulk whose response reports at least one successful element is the documented per-element commit (a bulk is a container of independent requests): counted, and only a change WITHOUT any successful element is a violation; exact per-element accounting is C32's oracle. A 4xx of an import after some logs were committed is reported under a dedicated `state-changed-import-partial-commit` signature (recorded known finding)",
 		},
 		Run: runC38,
 	})
@@ -1273,7 +1273,18 @@ func (x *c38Exec) judge2(rt *c38Route, class, mdesc string, q c38Req, resp *c38R
 		switch {
 		case strings.HasSuffix(rt.Name, "/_bulk"):
 			if v, _ := q.getQuery("atomic"); !c38QueryTrue(v) {
-				what = "state-changed-non-atomic-bulk-partial-commit"
+				// A non-atomic bulk is a container of independent requests: the API documents that
+				// each element is committed on its own and that the HTTP status is 400 as soon as one
+				// element failed, with one result per element in the body. The invalid element had no
+				// effect iff the change is explained by elements reported as successful (exact
+				// per-element accounting is C32's oracle); a change with NO successful element is not.
+				ok, failed, parsed := c38BulkResults(resp.Body)
+				if parsed && ok > 0 {
+					x.agg.count("non_atomic_bulk_4xx_with_committed_elements", 1)
+					x.agg.seen("non_atomic_bulk_partial_shapes", fmt.Sprintf("ok=%d failed=%d", c38Bucket(ok), c38Bucket(failed)))
+					return c38Verdict{}
+				}
+				what = "state-changed-non-atomic-bulk-without-successful-element"
 			} else {
 				what = "state-changed-ATOMIC-bulk"
 			}
@@ -1816,4 +1827,33 @@ func c38Keys(m map[string]string) []string {
 	}
 	sort.Strings(ks)
 	return ks
+}
+
+
+// c38BulkResults counts the per-element results of a bulk response body.
+func c38BulkResults(body []byte) (ok, failed int, parsed bool) {
+	var doc struct {
+		Data []struct {
+			ResponseType string `json:"responseType"`
+			ErrorCode    string `json:"errorCode"`
+		} `json:"data"`
+	}
+	if err := json.Unmarshal(body, &doc); err != nil || doc.Data == nil {
+		return 0, 0, false
+	}
+	for _, e := range doc.Data {
+		if e.ErrorCode != "" || e.ResponseType == "ERROR" {
+			failed++
+		} else {
+			ok++
+		}
+	}
+	return ok, failed, true
+}
+
+func c38Bucket(n int) int {
+	if n > 3 {
+		return 3
+	}
+	return n
 }
